@@ -470,7 +470,7 @@ func (run *checkRun) writeEvidence(start time.Time, code int) {
 	var obls []map[string]any
 	var samples []any
 	trusted := map[string]bool{}
-	var fuc, assumed, canaries, knownList, inlined, notes []string
+	fuc, assumed, canaries, knownList, inlined, notes := []string{}, []string{}, []string{}, []string{}, []string{}, []string{}
 	observers := map[string]bool{}
 	havocked := map[string]bool{}
 	nObl, nProved, nViol := 0, 0, 0
@@ -576,8 +576,8 @@ func (run *checkRun) writeEvidence(start time.Time, code int) {
 			"solver_ms_total":          solverMs,
 			"canaries_and_covers":      canaries,
 			"known_findings":           knownList,
-			"known_finding_replays":    run.knownReplays,
-			"bounded_checks":           run.bounded,
+			"known_finding_replays":    nonNilList(run.knownReplays),
+			"bounded_checks":           nonNilList(run.bounded),
 			"samples":                  samples,
 			"notes":                    uniqSorted(notes),
 			"explanation":              "every obligation is a verification condition generated from the current source text of the repository and discharged by an SMT solver (unsat of the negation) or by a sound syntactic rule (backend structural); bounded_checks are never counted in discharged",
@@ -609,4 +609,11 @@ func uniqSorted(xs []string) []string {
 		m[x] = true
 	}
 	return sortedNames(m)
+}
+
+func nonNilList(l []map[string]any) []map[string]any {
+	if l == nil {
+		return []map[string]any{}
+	}
+	return l
 }
